@@ -301,12 +301,128 @@ fn one_history(rep: &mut Report, rng: &mut Rng, case_no: u64, nops: usize, every
     rep.sample(json!({"ops": ops.iter().map(op_name).collect::<Vec<_>>(), "points_of_first_message_append": first_msg_points}));
 }
 
+
+/// plain histories (one frame per operation on one thread): the raw disk state at every crash point
+/// is compared with the Lean model's `partialAppend`, and the recovered + continued state with `story`
+fn plain_history(rep: &mut Report, model: &mut Model, rng: &mut Rng, case_no: u64) {
+    let scratch = Scratch::new("c05p");
+    let data_dir = scratch.path().join("data");
+    let ws = scratch.path().join("ws");
+    std::fs::create_dir_all(&ws).unwrap();
+    let nops = rng.range(2, 7) as usize;
+    // (big, mr)
+    let flags: Vec<(bool, bool)> = (0..nops).map(|_| match rng.below(4) { 0 => (true, true), 1 | 2 => (false, true), _ => (false, false) }).collect();
+    let rec: Arc<Mutex<(bool, usize, Vec<(usize, String, PathBuf)>)>> = Arc::new(Mutex::new((false, 0, Vec::new())));
+    let rec2 = rec.clone();
+    let (dd, root) = (data_dir.clone(), scratch.path().join("snaps"));
+    rip_kernel::verif::install(Some(Arc::new(move |name: &str| {
+        let mut r = rec2.lock().unwrap();
+        if !r.0 {
+            return;
+        }
+        let dir = root.join(format!("{}", r.2.len()));
+        copy_dir(&dd, &dir);
+        let op = r.1;
+        r.2.push((op, name.to_string(), dir));
+    })));
+    let (_log, store) = open(&data_dir, &ws);
+    let thread = store.ensure_default().unwrap();
+    for (i, (big, mr)) in flags.iter().enumerate() {
+        {
+            let mut r = rec.lock().unwrap();
+            r.0 = true;
+            r.1 = i;
+        }
+        if *mr {
+            let _ = store.append_message(&thread, "user".into(), "cli".into(), format!("m{i} {}", "x".repeat(if *big { 12_000 } else { 5 })));
+        } else {
+            let _ = ripd::verif_export::continuities::append_cursor_updated(&store, &thread, "openresponses", None, None, Some(json!({"previous_response_id": "r"})), "set", None);
+        }
+        rec.lock().unwrap().0 = false;
+    }
+    rip_kernel::verif::install(None);
+    drop(store);
+    let snaps = rec.lock().unwrap().2.clone();
+    rep.evaluations += 1;
+    rep.count("plain_histories");
+    let fl = |(b, m): &(bool, bool)| format!("{} {}", *b as u8, *m as u8);
+    let seqs_of = |path: &Path| -> (Vec<String>, Option<u64>) {
+        let bytes = std::fs::read(path).unwrap_or_default();
+        let text = String::from_utf8_lossy(&bytes).to_string();
+        let ends_nl = text.is_empty() || text.ends_with('\n');
+        let mut lines: Vec<&str> = text.lines().filter(|l| !l.trim().is_empty()).collect();
+        let mut dangling = None;
+        if !ends_nl {
+            if let Some(last) = lines.pop() {
+                dangling = serde_json::from_str::<Value>(last).ok().filter(|v| v["session_id"].as_str() == Some(thread.as_str())).and_then(|v| v["seq"].as_u64());
+            }
+        }
+        let seqs = lines.iter().filter_map(|l| match serde_json::from_str::<Value>(l) { Ok(v) => if v["session_id"].as_str() == Some(thread.as_str()) { Some(v["seq"].as_u64().map(|s| s.to_string()).unwrap_or("x".into())) } else { None }, Err(_) => Some("x".into()) }).collect();
+        (seqs, dangling)
+    };
+    let show = |d: &Path| -> String {
+        let (log, dangling) = seqs_of(&d.join("events.jsonl"));
+        let (side, _) = seqs_of(&d.join("continuity_streams").join(format!("{thread}.jsonl")));
+        let (mr, _) = seqs_of(&d.join("continuity_streams").join(format!("{thread}.mr.v1.jsonl")));
+        format!("log=[{}] dangling={} side=[{}] mr=[{}]", log.join(","), dangling.map(|s| s.to_string()).unwrap_or("_".into()), side.join(","), mr.join(","))
+    };
+    for (op, point, dir) in &snaps {
+        let f = flags[*op];
+        let tail = if f.1 { 7 } else { 5 };
+        let k = match point.as_str() {
+            "store.lock" | "store.log_append" | "log.body" => 0,
+            "log.newline" => 1,
+            "log.flush" => 2,
+            "log.done" | "store.cache_append" => 3,
+            "cache.full" => 4,
+            "cache.indexes" => 5,
+            "cache.mr.line" => 6,
+            "cache.mr" | "cache.comp" | "cache.comp.line" | "store.publish" => tail,
+            "store.bump" => tail + 1,
+            _ => continue,
+        };
+        // the thread's creation frame is history entry 0 (small, not in the messages+runs sidecar)
+        let hist: Vec<String> = std::iter::once("0 0".to_string()).chain(flags[..*op].iter().map(fl)).collect();
+        let more = [(false, true), (false, false), (false, true)];
+        let line = |stage: u32, with_more: bool| format!("c05 1 1 {} {} {} {} {} {}{}", hist.len(), hist.join(" "), fl(&f), k, stage, if with_more { more.len() } else { 0 }, if with_more { format!(" {}", more.iter().map(fl).collect::<Vec<_>>().join(" ")) } else { String::new() });
+        rep.traces_validated += 1;
+        rep.count("plain_crash_states");
+        rep.nontrivial_case(&format!("plain|{case_no}|{op}|{point}"));
+        // the raw crash state
+        let raw = show(dir);
+        let m0 = model.ask(&line(0, false));
+        if raw != m0 {
+            rep.disagreement(&format!("disk state at crash point {point}"), json!({"case": case_no, "op": op, "point": point, "flags": flags.iter().map(fl).collect::<Vec<_>>(), "line": line(0, false)}), &raw, &m0);
+            continue;
+        }
+        // restart and three further appends (message, cursor, message)
+        {
+            let (_l, st) = open(dir, &ws);
+            let _ = st.append_message(&thread, "user".into(), "cli".into(), "after 1".into());
+            let _ = ripd::verif_export::continuities::append_cursor_updated(&st, &thread, "openresponses", None, None, None, "set", None);
+            let _ = st.append_message(&thread, "user".into(), "cli".into(), "after 2".into());
+        }
+        let cont = show(dir);
+        let m2 = model.ask(&line(2, true));
+        if cont != m2 {
+            rep.disagreement(&format!("disk state after crash at {point}, restart and three appends"), json!({"case": case_no, "op": op, "point": point, "line": line(2, true)}), &cont, &m2);
+        }
+        let _ = std::fs::remove_dir_all(dir);
+    }
+    rep.sample(json!({"plain_flags": flags.iter().map(fl).collect::<Vec<_>>(), "crash_states": snaps.len()}));
+}
+
 pub fn run(opts: &Opts) -> Report {
     let mut rep = Report::new(
         "C05",
         "deterministic workloads of 8-16 store operations (messages incl. frames larger than the writer buffer, runs with selection frames, cursor updates, side effects, manual and automatic checkpoints with summary artifacts, branch, handoff, context compile with its bundle artifact) on a fresh store; the on-disk state is copied at every named crash point (quick: every 2nd) between the file-system effects of the log, the seven cache files, index.json and artifact writes; each copy is reopened and checked (replay validated, numbering, acknowledged prefix, three further appends per thread, caches as found vs removed); non-trivial = every examined crash state",
     );
     let mut rng = Rng::new(opts.seed);
+    let mut model = Model::spawn();
+    let np = if opts.thorough { 120 } else { 12 } * opts.scale;
+    for case_no in 0..np {
+        plain_history(&mut rep, &mut model, &mut rng, case_no);
+    }
     let n = if opts.thorough { 40 } else { 5 } * opts.scale;
     for case_no in 0..n {
         let nops = rng.range(8, 16) as usize;
